@@ -3,12 +3,12 @@ package main
 import (
 	"bufio"
 	"bytes"
-	"io"
-	"net/http"
 	"encoding/json"
 	"fmt"
+	"io"
 	"math/rand"
 	"net"
+	"net/http"
 	"os"
 	"path/filepath"
 	"regexp"
